@@ -9,17 +9,16 @@ import "verif/engine"
 // reporting each would crowd out any OTHER violation. Once a defect is fixed nothing is demoted any more
 // (a leaf that passes is a leaf that passes), so no coverage is lost.
 const (
-	classDegree0      = "degree-0"            // constant polynomial: panic (negative shift amount)
-	classLazy         = "lazy-power-basis" // a non-relinearized power in the basis (Polynomial.Lazy or GenPower(..,lazy=true)): wrong values, both schemes
-	classDeclaredEven = "declared-even"       // IsOdd=false and a constant quotient in the Paterson-Stockmeyer split: wrong values
+	classDegree0       = "degree-0"              // constant polynomial: panic (negative shift amount)
+	classLazy          = "lazy-power-basis"      // FIXED in /repo ed879d8 (MulThenAdd resize): lazy power bases are judged like everything else; the small scenarios stay as a regression
+	classMixedDeclared = "mixed-declared-parity" // vector whose polynomials declare different parities: PolynomialVector.IsEven/IsOdd AND the flags, constant and terms dropped
+	classDeclaredEven  = "declared-even"         // IsOdd=false and a constant quotient in the Paterson-Stockmeyer split: wrong values
 )
 
 func knownClass(scheme string, sh shape, kind, entry int, declared bool) string {
 	switch {
 	case sh.degree == 0:
 		return classDegree0
-	case (kind == kPolyLazy || entry == eFromPBPreLazy) && sh.degree >= 3:
-		return classLazy
 	case declared && sh.parity == 2:
 		return classDeclaredEven
 	}
